@@ -33,7 +33,7 @@ def tokenize(lines):
         ("SKIP", r"\s+"),
         (
             "OTHER",
-            r"[,:;\-\?\+*%\[\]/\(\)]|<<|>>|!=|==|<=|>=|>|<|=|{|}|&|\^|\|",
+            r"[,:;\-\?\+*%\[\]/\(\)~]|<<|>>|!=|==|<=|>=|>|<|=|{|}|&|\^|\|",
         ),
     ]
     tok_re = "|".join(f"(?P<{name}>{pat})" for name, pat in tok_spec)
@@ -370,6 +370,13 @@ class Reader:
                 data = self.consume("STRING")[1]
                 data = unhexlify(data)
                 ins = ir.LiteralData(data, name)
+            elif self.at_keyword("rol") or self.at_keyword("ror"):
+                # Binop with an operator that is spelled as a word
+                op = self.parse_id()
+                b = self.parse_id()
+                a = self.find_value(a)
+                b = self.find_value(b)
+                ins = ir.Binop(a, op, b, name, ty)
             else:
                 raise NotImplementedError(a)
         elif self.peek in ["INT", "FLOAT"]:
@@ -380,9 +387,8 @@ class Reader:
             src = self.parse_value_ref(ty=ir.BlobDataTyp(1, 1))
             assert ty is ir.ptr
             ins = ir.AddressOf(src, name)
-        elif self.peek == "-":
-            self.consume("-")
-            operation = "-"
+        elif self.peek in ir.Unop.ops:
+            operation = self.consume(self.peek)[1]
             a = self.parse_value_ref()
             ins = ir.Unop(operation, a, name, ty)
         else:  # pragma: no cover
